@@ -56,7 +56,7 @@ def gen_case(rng):
         sp = sorted({s for r, p in desc["reactions"] for s in r + p if s not in ("CR", "PHOTON", "CRPHOT", "CRP")})
         tgt = rng.choice(sp)
         nt = rng.randint(1, 2)
-        desc["ode_modifier"] = {tgt: {"factors": [rng.choice(["-2.0", "1.5 * k[0]", "zeta", "-k[0]", "(nH + 1.0)"]) for _ in range(nt)],
+        desc["ode_modifier"] = {tgt: {"factors": [rng.choice(["-2.0", "1.5 * k[0]", "zeta", "-k[0]", "(nH + 1.0)", "-zeta + nH", "-2.0 - k[0]", "-k[0] * 2.0 + 1.0e-3"]) for _ in range(nt)],
                                       "reactants": [[rng.choice(sp) for _ in range(rng.randint(1, 3))] for _ in range(nt)]}}
     desc["mode"] = mode
     # a third of the cases edit the network after the modifiers were attached (the species set is kept)
